@@ -11,10 +11,52 @@ from verif.spec import PropertySpec
 _c = SolveTContract()
 _c.shards = {'generic/offset0': 2, 'parser/offset0': 2, 'generic/offset': 6, 'parser/offset': 6}
 
+from verif.bounded import BoundedCheck, BoundedResult, Violation
+
+
+class InfeasiblePeriod(BoundedCheck):
+    name = 'c04.infeasible-period'
+    props = ('C04',)
+    concretises = ('fsic.core.models.BaseModel.solve_t',)
+    bound_quick = 'parser-built models with lags / leads 1..2, span lengths LAGS+LEADS+1..+3, every period position in both spellings: feasible ones solve, infeasible ones must be rejected'
+    bound_thorough = bound_quick
+    required_covers = ('feasible', 'infeasible')
+
+    def cases(self, tier, seed):
+        for script in ('Y = Y[-1] + 1', 'Y = 0.5 * Y[-2] + X[1]', 'Y = X[2] - X'):
+            for extra in (1, 2, 3):
+                yield {'script': script, 'extra': extra}
+        yield {'script': 'Y = Y[-1] + 1', 't': 0}
+
+    def check(self, case, res):
+        import fsic
+        out = []
+        Model = fsic.build_model(fsic.parse_model(case['script']))
+        n = Model.LAGS + Model.LEADS + case.get('extra', 2)
+        ts = [case['t']] if 't' in case else list(range(-n, n))
+        for t in ts:
+            m = Model(list(range(n)), X=1.0)
+            nt = t % n
+            feasible = Model.LAGS <= nt <= n - 1 - Model.LEADS
+            res.nontrivial.add((case['script'], n, t))
+            res.cover('feasible' if feasible else 'infeasible')
+            try:
+                m.solve_t(t, max_iter=3, failures='ignore')
+                ok = True
+            except Exception:  # noqa: BLE001
+                ok = False
+            if feasible and not ok:
+                out.append(Violation('a feasible period is solved', 'c04.feasible-period-rejected', dict(case, t=t), 'solved', 'exception'))
+            if not feasible and ok:
+                out.append(Violation('an explicit request to solve a period that cannot accommodate the lags or leads is rejected rather than silently served',
+                                     'c04.infeasible-period-served', dict(case, t=t), 'exception', 'returned', 'infeasible_period_is_rejected'))
+        return out
+
+
 PROPERTY = PropertySpec(
     id='C04',
     contracts=[_c, SolveContract(), ProgramsContract(catalogue(os.environ.get('VERIF_TIER', 'quick'), int(os.environ.get('VERIF_SEED', '0'))))],
-    bounded=[SolveTScripted(), EvaluateDifferential()],
+    bounded=[SolveTScripted(), EvaluateDifferential(), InfeasiblePeriod()],
     level='other',
     explanation='Frame obligations of BaseModel.solve_t from its real source: status/iterations change only at t; the three up-front '
                 'rejections leave the whole state unchanged; under the parser-built interface contract (an evaluation pass writes only '
